@@ -40,7 +40,7 @@ ASSUMPTIONS = ["an interruption of the underlying socket is socket.timeout or an
                "then far beyond any deadline; timeout is None, 0 or 1000 s",
                "flags=0, sizes >= 0, one thread"]
 TRUSTED = ["Model/C12_Model.v is hand-written; tied to boltons.socketutils by the correspondence run",
-           "harness/c12.py scripted socket and serialiser",
+           "harness/c12.py scripted socket, scripted clock (boltons.socketutils.time replaced by assignment) and serialiser",
            "bytes/bytearray slicing, find and join of CPython (py_find/firstn/skipn in the model)",
            "int() on ASCII digits (py_int), str() of a non-negative int (py_str)"]
 
